@@ -5,6 +5,7 @@
 //   lu m n <m*n hex>          construct LUDecomposition<double>; answer
 //                             piv <m ints> ; L <m*n hex> ; U <n*n hex> ; det <hex>
 //   solve mb nx <mb*nx hex>   solve with the current object; answer  minD <hex> ; X <rows cols> <hex...>
+//   solvev mb <mb hex>        the std::vector overload of solve; answer  minD <hex> ; X <len> 1 <hex...>
 //   inv m n <m*n hex>         MatrixTools::inv; answer as solve
 //   det m n <m*n hex>         MatrixTools::det; answer <hex>
 //   dett n <n*n hex>          MatrixTools::det of A and of its transpose; answer <hex> <hex>
@@ -59,6 +60,16 @@ static std::string doOp(St& s, const Toks& t) {
     auto X = mk(s.sX, 1, 2); (*X)(0, 0) = 7.0; (*X)(0, 1) = -7.0;   // stale content of another shape
     double d = s.lu->solve(*B, *X);
     return "minD " + hx(d) + " ; X " + show(*X);
+  }
+  if (o == "solvev") {
+    if (!s.lu) return "no-lu";
+    size_t mb = toU(t.at(1));
+    std::vector<double> b(mb), x(3, 7.0);   // stale content of another length
+    for (size_t i = 0; i < mb; ++i) b[i] = hexToDouble(t.at(2 + i));
+    double d = s.lu->solve(b, x);
+    std::string r = "minD " + hx(d) + " ; X " + std::to_string(x.size()) + " 1";
+    for (double v : x) r += " " + hx(v);
+    return r;
   }
   if (o == "inv") {
     size_t pos = 1; auto A = parse(s.sA, t, pos);
